@@ -391,6 +391,12 @@ func (bldr *BundleBuilder) HopCountBlock(args ...interface{}) *BundleBuilder {
 //   where Data is the payload's data and
 //   BlockControlFlags are _optional_ block processing control flags
 func (bldr *BundleBuilder) PayloadBlock(args ...interface{}) *BundleBuilder {
+	if args[0] == nil {
+		// binary.Write panics on an untyped nil, e.g., a JSON null passed through BuildFromMap
+		bldr.err = fmt.Errorf("PayloadBlock received nil as data")
+		return bldr
+	}
+
 	var buf bytes.Buffer
 	if err := binary.Write(&buf, binary.LittleEndian, args[0]); err != nil {
 		bldr.err = err
